@@ -15,3 +15,6 @@ func (st *PacketServer) VerifUpstreams() Channels { return st.upstreams }
 func (st *IoServer) VerifUpstreams() Channels     { return st.upstreams }
 func (st *IoServer) VerifSecure() bool            { return st.secure }
 func (ws *HttpServer) VerifSecure() bool          { return ws.secure }
+
+func (st *SocketServer) VerifAddr() string { return st.listener.Addr().String() }
+func (st *PacketServer) VerifAddr() string { return st.PacketConnection.LocalAddr().String() }
